@@ -24,6 +24,9 @@ class C02(ProgProp):
             yield c
         for c in self.patch_api_cases(ctx):
             yield c
+        # the directory a file lies in says nothing about its bytecode: same stream under any path
+        for v in ("3.8", "3.9", "3.10", "2.7"):
+            yield {"k": "pathname", "v": v, "src": "def f(a):\n    return a.b(1, *a, **{'k': a})\nx = [*f(1), *f(2)]\n" if v != "2.7" else "def f(a):\n    return a.b(1)\n"}
         # opcodes that CPython's documentation dates (HISTORY in c09): in a version that had the opcode, its byte decodes
         # to that name.  The byte value is the one the neighbouring versions' tables give the name (numbers did not move
         # while a name lived in that era; pairs where the neighbours disagree are left out).
@@ -103,7 +106,48 @@ class C02(ProgProp):
                      "(dis documentation), xdis decodes it as %s" % (v, num, name, v, got))
         return res
 
+    def judge_pathname(self, case, ctx):
+        import os
+        from vf.run import Result
+        res = Result()
+        v = case.get("v")
+        if v not in self.versions or not isinstance(case.get("src"), str):
+            res.reject = "malformed-case"
+            return res
+        ref = ctx.pool.ref(v).call("compile", src=case["src"], dis=False)
+        if "reject" in ref:
+            res.reject = "compiler-rejects"
+            return res
+        data = rw.unhx(ref["header"]) + rw.unhx(ref["payload"])
+        tag = v.replace(".", "")
+        streams = {}
+        for rel in ("plain/m.cpython-%s.pyc" % tag, "pypy%s-compat/m.cpython-%s.pyc" % (tag, tag), "site-packages/pypy%s/m.pyc" % tag,
+                    "x/m.pypy%s-compat.pyc" % tag):
+            path = os.path.join(ctx.scratch, rel)
+            os.makedirs(os.path.dirname(path), exist_ok=True)
+            with open(path, "wb") as f:
+                f.write(data)
+            try:
+                d = rw.x_dump_file(path=path, want_dis=True, max_code=2000, route="load_module")
+                streams[rel] = [(d["header"]["is_pypy"],)] + [[(i["o"], i["n"], i["a"]) for i in c.get("instrs", [])] for c in d["dis"]]
+            except Exception as e:
+                streams[rel] = "raised %s: %s" % (type(e).__name__, e)
+        base = streams["plain/m.cpython-%s.pyc" % tag]
+        for rel, st_ in sorted(streams.items()):
+            if st_ != base:
+                res.fail("C02|decode|%s|depends-on-path" % v, "the same %s file decodes differently under %s than under plain/: %s vs %s" % (
+                    v, rel, str(st_)[:120], str(base)[:120]))
+                break
+        res.nontrivial = True
+        res.key = ["pathname", v]
+        res.evals = len(streams)
+        res.classes = ["version:" + v, "source:pathname"]
+        res.sample = {"version": v, "paths": sorted(streams)}
+        return res
+
     def judge(self, case, ctx):
+        if case.get("k") == "pathname":
+            return self.judge_pathname(case, ctx)
         if case.get("k") == "history":
             return self.judge_history(case, ctx)
         if case.get("k") == "host":
